@@ -305,6 +305,12 @@ type bEnv struct {
 	// tracer's Diagnostics callback was given, for the C12 oracle of the builder lane
 	finderDiags []finderDiagRec
 	tracedDiags []deliveredDiag
+	// fault "the target directory disappears": during the rmTargetAt-th callback (counted like failAt) the
+	// directory rmTarget - the builder's target directory, inside the lane's scratch directory - is renamed
+	// to rmTarget+".gone"; the callback itself answers normally. 0 = never.
+	rmTargetAt int
+	rmTarget   string
+	rmDone     bool
 }
 
 type finderDiagRec struct {
@@ -367,6 +373,10 @@ func (e *bEnv) tick(what string, key ...string) bool {
 	}
 	if e.failedKeys[k] {
 		fail = true
+	}
+	if e.rmTargetAt != 0 && e.calls == e.rmTargetAt && e.rmTarget != "" && !e.rmDone {
+		e.rmDone = true
+		os.Rename(e.rmTarget, e.rmTarget+".gone")
 	}
 	e.mu.Unlock()
 	if e.boundary != nil {
